@@ -636,14 +636,16 @@ theorem fromVec_cost {v : Array (Item × P)} {s' : Store P} (h : fromVec v = .ok
   obtain ⟨c, d⟩ := Store.fromVec_cost v
   rw [c] at b; rw [a]; exact ⟨d, by omega⟩
 
-theorem fromIter_cost {v : Array (Item × P)} {s' : Store P} (h : fromIter v = .ok s') :
+theorem fromIter_cost {lo : Nat} {v : Array (Item × P)} {s' : Store P} (h : fromIter lo v = .ok s') :
     s'.size ≤ v.size ∧ s'.ticks ≤ 2 * s'.size := by
-  obtain ⟨a, b⟩ := heapBuild_cost h
+  obtain ⟨a, b⟩ := heapBuild_cost (fromIter_eq_ok.1 h).2
   obtain ⟨c, d⟩ := Store.fromIter_cost v
   rw [c] at b; rw [a]; exact ⟨d, by omega⟩
 
-theorem deserialize_cost {v : Array (Item × P)} {s' : Store P} (h : deserialize v = .ok s') :
+theorem deserialize_cost {hint : Option Nat} {v : Array (Item × P)} {s' : Store P}
+    (h : deserialize hint v = .ok s') :
     s'.size ≤ v.size ∧ s'.ticks ≤ 2 * s'.size := by
+  rw [deserialize_eq] at h
   obtain ⟨a, b⟩ := heapBuild_cost h
   obtain ⟨c, d⟩ := Store.visitSeq_cost v
   rw [c] at b; rw [a]; exact ⟨d, by omega⟩
@@ -837,9 +839,8 @@ theorem pushAll_cost (es : List (Item × P)) : ∀ {s s' : Store P}, s.QpLt → 
 theorem extend_cost {s s' : Store P} {lo : Nat} {xs : Array (Item × P)} (hq : s.QpLt) (h : extend s lo xs = .ok s') :
     s'.size ≤ s.size + xs.size ∧
     s'.ticks ≤ s.ticks + max (2 * s'.size) (xs.size * (3 * Nat.log2 s'.size)) := by
-  unfold extend at h
+  rw [extend_of_lt xs (extend_ok_lt h)] at h
   generalize (if lo ≠ 0 then betterToRebuild s.size lo else false) = rb at h
-  dsimp only at h
   split at h
   · obtain ⟨a, b⟩ := extend_rebuild_cost h
     exact ⟨a, by omega⟩
@@ -1587,14 +1588,16 @@ theorem fromVec_cost {v : Array (Item × P)} {s' : Store P} (h : fromVec v = .ok
   obtain ⟨c, d⟩ := Store.fromVec_cost v
   rw [c] at b; rw [a]; exact ⟨d, by omega⟩
 
-theorem fromIter_cost {v : Array (Item × P)} {s' : Store P} (h : fromIter v = .ok s') :
+theorem fromIter_cost {lo : Nat} {v : Array (Item × P)} {s' : Store P} (h : fromIter lo v = .ok s') :
     s'.size ≤ v.size ∧ s'.ticks ≤ 7 * s'.size := by
-  obtain ⟨a, b⟩ := heapBuild_cost h
+  obtain ⟨a, b⟩ := heapBuild_cost (fromIter_eq_ok.1 h).2
   obtain ⟨c, d⟩ := Store.fromIter_cost v
   rw [c] at b; rw [a]; exact ⟨d, by omega⟩
 
-theorem deserialize_cost {v : Array (Item × P)} {s' : Store P} (h : deserialize v = .ok s') :
+theorem deserialize_cost {hint : Option Nat} {v : Array (Item × P)} {s' : Store P}
+    (h : deserialize hint v = .ok s') :
     s'.size ≤ v.size ∧ s'.ticks ≤ 7 * s'.size := by
+  rw [deserialize_eq] at h
   obtain ⟨a, b⟩ := heapBuild_cost h
   obtain ⟨c, d⟩ := Store.visitSeq_cost v
   rw [c] at b; rw [a]; exact ⟨d, by omega⟩
@@ -1900,9 +1903,8 @@ theorem pushAll_cost (es : List (Item × P)) : ∀ {s s' : Store P}, s.QpLt → 
 theorem extend_cost {s s' : Store P} {lo : Nat} {xs : Array (Item × P)} (hq : s.QpLt) (h : extend s lo xs = .ok s') :
     s'.size ≤ s.size + xs.size ∧
     s'.ticks ≤ s.ticks + max (7 * s'.size) (xs.size * (8 * Nat.log2 s'.size + 8)) := by
-  unfold extend at h
+  rw [extend_of_lt xs (extend_ok_lt h)] at h
   generalize (if lo ≠ 0 then betterToRebuild s.size lo else false) = rb at h
-  dsimp only at h
   split at h
   · obtain ⟨a, b⟩ := extend_rebuild_cost h
     exact ⟨a, by omega⟩
